@@ -93,7 +93,8 @@ UfIter(r, x, n) == IF n = 0 THEN x ELSE UfIter(r, UfPar(r, x), n - 1)
 (* x is on a cycle of length >= 2 of the parent map *)
 UfOnCycle(r, x) == UfPar(r, x) # x /\ \E n \in 1..Len(r) : UfIter(r, x, n) = x
 (* rho shape: some item that is NOT on a cycle walks into a cycle of length >= 2.
-   `find` started at such an item never returns (neither loop exit fires). *)
+   The pre-fix `find` (before /repo 263fd4bfaa9) never returned when started at such an item;
+   kept to give a regression its fingerprint uf/find/rho-cycle. *)
 UfRhoStart(r, x) == ~UfOnCycle(r, x) /\ \E n \in 1..Len(r) : UfOnCycle(r, UfIter(r, x, n))
 UfItems(r) == {r[i][1] : i \in DOMAIN r} \cup {r[i][2] : i \in DOMAIN r}
 UfHasRho(r) == \E x \in UfItems(r) : UfRhoStart(r, x)
